@@ -15,20 +15,29 @@
    the records read back equal the records written, and conversions, rest on C05/C06/C07/C09/C10
    and are evaluated on the implementation only (L3 oracle of harness/src/bin/c20.rs).
 
+   Deepening round 4: /repo contains the detection repair 5c79ec5 (read the first 8 KiB ahead),
+   so the UNCONDITIONAL statement is the main theorem (c20_detect_written, _variant: every stream
+   of the generic writers, every delivery script).  The theorems about the tree before that
+   repair (one fill_buf window) are kept as history under the names c20_v0_*.  New: the async
+   reader builders (NV.Util.AsyncFill: async detection = sync detection for every poll script)
+   and the SAM <-> BAM conversions record by record (NV.Util.Convert, corollaries of C05/C06).
+
    Second part of the file (deepening round 2): the window over a source with a delivery script
    (NV.Util.Fill: the current builders and the builders repaired by patch 06), the decisions that
    do not look at content (NV.Util.Dispatch: path extensions, builder defaults, the inner dispatch
    of readers and writers, indexed readers and index discovery, finish). *)
 From Coq Require Import List NArith.
-From NV Require Import Io.Source Util.Detect Util.DetectProofs Util.Fill Util.FillProofs Util.Dispatch Util.DispatchProofs.
+From NV Require Import Io.Source Async.ReadExact Util.Detect Util.DetectProofs Util.Fill Util.FillProofs
+                       Util.AsyncFill Util.AsyncFillProofs Util.Dispatch Util.DispatchProofs.
 Import ListNotations.
 Open Scope N_scope.
 
-(* The statement one would like: every stream of the generic writer, whatever the first read
-   delivers, is detected as written.  It is FALSE for the faithful model (detection sees only the
-   first fill_buf window: c20_short_window_refuted); the theorems that follow carry exactly the
-   side conditions the proof needs. *)
-Definition c20_detect_written_full_statement : Prop :=
+(* ---- history: the tree before 5c79ec5 (detection on ONE fill_buf window) ------------------
+   The unconditional statement over first-read sizes k was FALSE for that tree (detection saw only
+   what the first read delivered: c20_v0_short_window_refuted); the v0 theorems carry exactly the
+   side conditions the proof needed.  [window s k] with k >= 8192 is also the window of HEAD, so
+   the whole-stream corollaries and the facts about magic numbers below apply to HEAD unchanged. *)
+Definition c20_v0_detect_written_unconditional : Prop :=
   forall (bgzf : list N -> list N) (gunzip : list N -> inflated),
     (forall p, exists r, bgzf p = 31 :: 139 :: r) ->
     (forall p m, exists n, avail (gunzip (firstn m (bgzf p))) = firstn n p) ->
@@ -46,7 +55,7 @@ Definition c20_detect_written_full_statement : Prop :=
      raw BAM / CRAM: k >= 4;
      BGZF: k >= 2 and either the decoder gets 4 bytes out of the window or the window is the
            whole stream. *)
-Theorem c20_detect_written_partial :
+Theorem c20_v0_detect_written_partial :
   forall (bgzf : list N -> list N) (gunzip : list N -> inflated)
     (H_magic : forall p, exists r, bgzf p = 31 :: 139 :: r)
     (H_prefix : forall p m, exists n, avail (gunzip (firstn m (bgzf p))) = firstn n p)
@@ -55,10 +64,10 @@ Theorem c20_detect_written_partial :
     written_a bgzf f c amb s -> window_ok_a gunzip f c amb s k ->
     detect_a (window s k) (gunzip (window s k)) = Ok (f, c).
 Proof. exact detect_written_a_partial. Qed.
-Print Assumptions c20_detect_written_partial.
+Print Assumptions c20_v0_detect_written_partial.
 
 (* Variants: VCF text (begins "##fileformat=VCFv") and BCF, raw or BGZF-compressed. *)
-Theorem c20_detect_written_variant_partial :
+Theorem c20_v0_detect_written_variant_partial :
   forall (bgzf : list N -> list N) (gunzip : list N -> inflated)
     (H_magic : forall p, exists r, bgzf p = 31 :: 139 :: r)
     (H_prefix : forall p m, exists n, avail (gunzip (firstn m (bgzf p))) = firstn n p)
@@ -67,7 +76,7 @@ Theorem c20_detect_written_variant_partial :
     written_v bgzf f c s -> window_ok_v gunzip f c s k ->
     detect_v (window s k) (gunzip (window s k)) = Ok (f, c).
 Proof. exact detect_written_v_partial. Qed.
-Print Assumptions c20_detect_written_variant_partial.
+Print Assumptions c20_v0_detect_written_variant_partial.
 
 (* When the first read delivers the whole stream (it fits BufReader's 8 KiB buffer) there is NO
    side condition: this includes the BGZF-compressed SAM of an empty header and no records
@@ -127,29 +136,29 @@ Theorem c20_gz_short_payload :
 Proof. exact detect_a_gz_short. Qed.
 Print Assumptions c20_gz_short_payload.
 
-(* ---- what still fails (known finding detect-short-first-read) ---- *)
+(* ---- what failed before 5c79ec5 (finding detect-short-first-read, fixed) ---- *)
 
 (* a short first read: raw BAM / CRAM / BCF are taken for SAM / VCF when the first read delivers
    fewer bytes than the magic; a header-less SAM whose first read is named CRAM... is taken for
    CRAM when the first read delivers exactly four bytes; any BGZF stream is taken for raw SAM/VCF
    when it delivers one byte *)
-Theorem c20_short_window_refuted :
+Theorem c20_v0_short_window_refuted :
   (forall rest i, detect_a (window (bam_payload rest) 3) i = Ok (Sam, CNone)) /\
   (forall major minor rest i, detect_a (window (cram_stream major minor rest) 3) i = Ok (Sam, CNone)) /\
   (forall rest i, detect_v (window (bcf_payload rest) 2) i = Ok (Vcf, CNone)) /\
   (forall i, detect_a (window (sam_text [] [mk_sam_line (Some [67; 82; 65; 77; 49]) [52; 9; 42]]) 4) i
              = Ok (Cram, CNone)).
 Proof. exact short_window_raw_refuted. Qed.
-Print Assumptions c20_short_window_refuted.
+Print Assumptions c20_v0_short_window_refuted.
 
-Theorem c20_short_window_gz_refuted :
+Theorem c20_v0_short_window_gz_refuted :
   forall (bgzf : list N -> list N) (gunzip : list N -> inflated)
     (H_magic : forall p, exists r, bgzf p = 31 :: 139 :: r),
   forall p,
     detect_a (window (bgzf p) 1) (gunzip (window (bgzf p) 1)) = Ok (Sam, CNone) /\
     detect_v (window (bgzf p) 1) (gunzip (window (bgzf p) 1)) = Ok (Vcf, CNone).
 Proof. exact short_window_gz_refuted. Qed.
-Print Assumptions c20_short_window_gz_refuted.
+Print Assumptions c20_v0_short_window_gz_refuted.
 
 (* ---- non-vacuity: concrete instances of the hypotheses ---- *)
 
@@ -170,7 +179,7 @@ Qed.
 
 (* the unconditional statement is false already for the toy oracle: a BAM whose first read
    delivers one byte *)
-Theorem c20_detect_written_full_statement_refuted : ~ c20_detect_written_full_statement.
+Theorem c20_v0_detect_written_unconditional_refuted : ~ c20_v0_detect_written_unconditional.
 Proof.
   intro H.
   specialize (H toy_bgzf toy_gunzip (proj1 c20_oracle_premises_satisfiable)
@@ -179,7 +188,7 @@ Proof.
                 Bam CBgzf false (toy_bgzf (bam_payload [])) 1%nat (le_n 1) (WBam toy_bgzf [])).
   vm_compute in H. discriminate.
 Qed.
-Print Assumptions c20_detect_written_full_statement_refuted.
+Print Assumptions c20_v0_detect_written_unconditional_refuted.
 
 (* formerly F13: the BGZF-compressed SAM of an empty header and no records, delivered whole *)
 Example c20_example_f13_repaired :
@@ -216,16 +225,16 @@ Proof. split; vm_compute; reflexivity. Qed.
 
 (* ---- (1) the window over a source with a delivery script -------------------------------- *)
 
-(* the builders repaired by /tmp/C20/fixes/06-detect-short-first-read.diff read the first 8 KiB
-   with take(8192).read_to_end: whatever the script (read sizes, Interrupted results), the window
-   is the first 8 KiB of the stream *)
-Theorem c20_repaired_window : forall src,
+(* HEAD (5c79ec5): the builders read the first 8 KiB ahead with take(8192).read_to_end:
+   whatever the script (read sizes, Interrupted results), the window is the first 8 KiB of the
+   stream *)
+Theorem c20_window : forall src,
   first_window_fix src = WOk (firstn BUF_CAP (s_data src)).
 Proof. exact first_window_fix_spec. Qed.
-Print Assumptions c20_repaired_window.
+Print Assumptions c20_window.
 
-(* the current builders: one read; [window s k] above is "the first read delivers k bytes" *)
-Theorem c20_current_window : forall s sc,
+(* history (before 5c79ec5): one read; [window s k] above is "the first read delivers k bytes" *)
+Theorem c20_v0_window : forall s sc,
   first_window_cur (mkSource s sc) =
     match sc with
     | [] => WOk (firstn BUF_CAP s)
@@ -233,13 +242,13 @@ Theorem c20_current_window : forall s sc,
     | Deliver k :: _ => WOk (window s (Nat.max k 1))
     end.
 Proof. exact first_window_cur_spec. Qed.
-Print Assumptions c20_current_window.
+Print Assumptions c20_v0_window.
 
-(* THE FULL STATEMENT for the repaired builders: every stream of the generic writers is detected
-   as written for EVERY delivery script -- no condition on read sizes.  Fourth oracle premise
+(* THE MAIN THEOREM (HEAD): every stream of the generic writers is detected as written for EVERY
+   delivery script -- no condition on read sizes.  Fourth oracle premise
    H_window: from the first 8 KiB of a BGZF stream the decoder gets the 4 bytes asked for, unless
    the whole stream fits the window (checked on the real libraries by the hz cases). *)
-Theorem c20_detect_written_repaired :
+Theorem c20_detect_written :
   forall (bgzf : list N -> list N) (gunzip : list N -> inflated)
     (H_magic : forall p, exists r, bgzf p = 31 :: 139 :: r)
     (H_prefix : forall p m, exists n, avail (gunzip (firstn m (bgzf p))) = firstn n p)
@@ -250,9 +259,9 @@ Theorem c20_detect_written_repaired :
     written_a bgzf f c amb s ->
     build_src_a true None None gunzip (mkSource s sc) = BOk (f, c).
 Proof. exact detect_written_repaired_a. Qed.
-Print Assumptions c20_detect_written_repaired.
+Print Assumptions c20_detect_written.
 
-Theorem c20_detect_written_repaired_variant :
+Theorem c20_detect_written_variant :
   forall (bgzf : list N -> list N) (gunzip : list N -> inflated)
     (H_magic : forall p, exists r, bgzf p = 31 :: 139 :: r)
     (H_prefix : forall p m, exists n, avail (gunzip (firstn m (bgzf p))) = firstn n p)
@@ -263,21 +272,21 @@ Theorem c20_detect_written_repaired_variant :
     written_v bgzf f c s ->
     build_src_v true None None gunzip (mkSource s sc) = BOk (f, c).
 Proof. exact detect_written_repaired_v. Qed.
-Print Assumptions c20_detect_written_repaired_variant.
+Print Assumptions c20_detect_written_variant.
 
-(* the repaired decision is a function of the stream alone (any stream, any overrides) *)
-Theorem c20_repaired_script_independent :
+(* the decision is a function of the stream alone (any stream, any overrides) *)
+Theorem c20_script_independent :
   forall gunzip oc ofa ofv s sc sc',
     build_src_a true oc ofa gunzip (mkSource s sc) = build_src_a true oc ofa gunzip (mkSource s sc') /\
     build_src_v true oc ofv gunzip (mkSource s sc) = build_src_v true oc ofv gunzip (mkSource s sc').
 Proof.
   intros. split; [apply build_src_fix_script_independent_a|apply build_src_fix_script_independent_v].
 Qed.
-Print Assumptions c20_repaired_script_independent.
+Print Assumptions c20_script_independent.
 
-(* the current builders over a source: the window conditions are about the first delivery; an
-   Interrupted first read makes the builder fail with ErrorKind::Interrupted *)
-Theorem c20_detect_written_current :
+(* history (before 5c79ec5): the window conditions are about the first delivery; an
+   Interrupted first read made the builder fail with ErrorKind::Interrupted *)
+Theorem c20_v0_detect_written_first_delivery :
   forall (bgzf : list N -> list N) (gunzip : list N -> inflated)
     (H_magic : forall p, exists r, bgzf p = 31 :: 139 :: r)
     (H_prefix : forall p m, exists n, avail (gunzip (firstn m (bgzf p))) = firstn n p)
@@ -286,13 +295,13 @@ Theorem c20_detect_written_current :
     written_a bgzf f c amb s -> window_ok_a gunzip f c amb s (Nat.max k 1) ->
     build_src_a false None None gunzip (mkSource s (Deliver k :: sc)) = BOk (f, c).
 Proof. exact detect_written_current_a. Qed.
-Print Assumptions c20_detect_written_current.
+Print Assumptions c20_v0_detect_written_first_delivery.
 
-Theorem c20_current_interrupted_first_read : forall gunzip s sc,
+Theorem c20_v0_interrupted_first_read : forall gunzip s sc,
   build_src_a false None None gunzip (mkSource s (Interrupted :: sc)) = BInterrupted /\
   build_src_v false None None gunzip (mkSource s (Interrupted :: sc)) = BInterrupted.
 Proof. exact current_interrupted_first_read. Qed.
-Print Assumptions c20_current_interrupted_first_read.
+Print Assumptions c20_v0_interrupted_first_read.
 
 (* the toy oracle also satisfies the fourth premise *)
 Example c20_oracle_premise_window_satisfiable : forall p,
@@ -564,3 +573,162 @@ Example c20_example_paths :
   build_writer_path_v None None [120; 46; 98; 99; 102; 46; 103; 122] = KVcfGz /\         (* x.bcf.gz: VCF! *)
   index_path [120; 46; 98; 97; 109] XBai = [120; 46; 98; 97; 109; 46; 98; 97; 105].      (* x.bam.bai *)
 Proof. repeat split. Qed.
+
+(* ======================================================================================== *)
+(* Deepening round 4.                                                                        *)
+
+(* ---- (5) the async reader builders --------------------------------------------------------- *)
+
+(* the async builders read ahead with tokio's take(8192).read_to_end over a source that answers
+   every poll as its script says (Pending / Ready with at most k bytes; C16's asource): for EVERY
+   poll script and every sequence of request sizes the window is the first 8 KiB of the stream,
+   and Cursor(prefix).chain(reader) then delivers the whole stream *)
+Theorem c20_async_window : forall req data polls,
+  first_window_async req (mkASource data polls) = WOk (firstn BUF_CAP data) /\
+  async_chained req (mkASource data polls) = data.
+Proof. intros. split; [apply first_window_async_spec|apply async_chained_spec]. Qed.
+Print Assumptions c20_async_window.
+
+(* the sync read-ahead loses nothing either: prefix ++ what is left in the source = the stream *)
+Theorem c20_read_ahead_lossless : forall src, sync_chained src = s_data src.
+Proof. exact sync_chained_spec. Qed.
+Print Assumptions c20_read_ahead_lossless.
+
+(* async detection = sync detection: any overrides, any stream, any poll script, any request
+   sizes, any sync delivery script *)
+Theorem c20_async_detection_equals_sync :
+  (forall oc ofm gunzip req s polls sc,
+     build_async_a oc ofm gunzip req (mkASource s polls) = build_src_a true oc ofm gunzip (mkSource s sc)) /\
+  (forall oc ofm gunzip req s polls sc,
+     build_async_v oc ofm gunzip req (mkASource s polls) = build_src_v true oc ofm gunzip (mkSource s sc)).
+Proof. split; [exact build_async_eq_sync_a|exact build_async_eq_sync_v]. Qed.
+Print Assumptions c20_async_detection_equals_sync.
+
+(* hence every stream of the generic writers is detected as written by the async builders *)
+Theorem c20_detect_written_async :
+  forall (bgzf : list N -> list N) (gunzip : list N -> inflated)
+    (H_magic : forall p, exists r, bgzf p = 31 :: 139 :: r)
+    (H_prefix : forall p m, exists n, avail (gunzip (firstn m (bgzf p))) = firstn n p)
+    (H_whole : forall p, gunzip (bgzf p) = mk_inflated p None)
+    (H_window : forall p, (4 <= length (avail (gunzip (firstn BUF_CAP (bgzf p)))))%nat \/
+                          (length (bgzf p) <= BUF_CAP)%nat),
+  (forall f c amb s req polls, written_a bgzf f c amb s ->
+     build_async_a None None gunzip req (mkASource s polls) = BOk (f, c)) /\
+  (forall f c s req polls, written_v bgzf f c s ->
+     build_async_v None None gunzip req (mkASource s polls) = BOk (f, c)).
+Proof.
+  intros. split; intros.
+  - eapply detect_written_async_a; eassumption.
+  - eapply detect_written_async_v; eassumption.
+Qed.
+Print Assumptions c20_detect_written_async.
+
+Example c20_example_async :
+  let polls := [PPending; PReady 1; PPending; PPending; PReady 2; PReady 1] in
+  build_async_a None None toy_gunzip (fun _ => 32%nat) (mkASource (toy_bgzf (bam_payload [0;0;0;0])) polls)
+    = BOk (Bam, CBgzf) /\
+  build_async_v None None toy_gunzip (fun _ => 1%nat) (mkASource (bcf_payload [0]) polls) = BOk (Bcf, CNone) /\
+  async_window_case [0; 2; 0; 3]%nat 7%nat [66; 65; 77; 1; 9] = (WOk [66; 65; 77; 1; 9], [66; 65; 77; 1; 9]).
+Proof. repeat split; vm_compute; reflexivity. Qed.
+
+(* ---- (6) conversions SAM <-> BAM, record by record ------------------------------------------ *)
+From Coq Require Import ZArith.
+From NV Require Import Base.Decimal Sam.Fields Sam.FieldsProofs Sam.Record Sam.RecordProofs Sam.BamAgree
+                       Util.Convert Util.ConvertProofs.
+From NV Require Bam.Record Bam.Encode Bam.Decode Bam.CodecProofs.
+
+(* Content preservation through the generic reader and writer is a corollary of C06's record
+   round trip, C05's BAM codec theorem and the data-model bridge of NV.Sam.BamAgree (imported
+   read-only).  Float text is C06's oracle (four premises).  wf_rec / wf_bits / wf_refs: C06's
+   domain (flags < 4096, MAPQ <= 255, CIGAR operations well formed, TLEN in i32, field values in
+   the range of their type, distinct tags; distinct valid reference names); the single quality
+   score 9 (the text `*`) is excluded as in C06.
+
+   SAM -> BAM: the line the SAM writer emits for r goes through the generic reader (lazy record:
+   integer fields typed Int32/UInt32 -- [lazy_i]) into the BAM writer.  Either the BAM encoder
+   rejects it, or the block decodes to exactly norm (to_bam_d (lazy_i (norm_i r))), which is r's
+   BAM form up to: integer tags by value, bases in BAM's 16-letter alphabet, a user CG field
+   dropped.  Every other column, every other field, their order: unchanged. *)
+Theorem c20_convert_sam_to_bam :
+  forall (fmt32 fmtd32 : N -> bytes) (parse32 : bytes -> option N) (parse32p : bytes -> option (N * bytes)),
+    (forall b, finite32 b = true -> parse32 (fmt32 b) = Some b) ->
+    (forall b, PR (fmt32 b)) ->
+    (forall b rest, finite32 b = true -> (rest = [] \/ exists r, rest = 44 :: r) ->
+                    parse32p (fmtd32 b ++ rest) = Some (b, rest)) ->
+    (forall b, PR (fmtd32 b)) ->
+    forall refs r t,
+      wf_refs refs -> wf_rec r -> wf_bits r -> r_qual r <> [9] ->
+      write_record fmt32 fmtd32 refs r = Some t ->
+      match convert_sam_bam parse32 parse32p refs t with
+      | CvOk out =>
+          Bam.Decode.decode out = Bam.Record.Ok (Bam.CodecProofs.norm (to_bam_d (lazy_i (norm_i r))))
+          /\ by_value (Bam.CodecProofs.norm (to_bam_d (lazy_i (norm_i r))))
+             = by_value (Bam.CodecProofs.norm (to_bam_d r))
+      | CvWriteErr =>
+          exists e, Bam.Encode.encode (Bam.Record.lenN refs) (to_bam_d (lazy_i (norm_i r))) = Bam.Record.Err e
+      | _ => False
+      end.
+Proof. exact convert_sam_bam_preserves. Qed.
+Print Assumptions c20_convert_sam_to_bam.
+
+(* BAM -> SAM: the block the BAM writer emits for r goes through the generic reader into the SAM
+   writer.  Either the SAM writer rejects it, or the line parses to r with bases in BAM's
+   alphabet, a user CG field dropped (norm_s) and integer tags in the smallest type (norm_i). *)
+Theorem c20_convert_bam_to_sam :
+  forall (fmt32 fmtd32 : N -> bytes) (parse32 : bytes -> option N) (parse32p : bytes -> option (N * bytes)),
+    (forall b, finite32 b = true -> parse32 (fmt32 b) = Some b) ->
+    (forall b, PR (fmt32 b)) ->
+    (forall b rest, finite32 b = true -> (rest = [] \/ exists r, rest = 44 :: r) ->
+                    parse32p (fmtd32 b ++ rest) = Some (b, rest)) ->
+    (forall b, PR (fmtd32 b)) ->
+    forall refs nref r block,
+      wf_refs refs -> wf_rec r -> wf_bits r -> r_qual r <> [9] ->
+      Bam.Encode.encode nref (to_bam_d r) = Bam.Record.Ok block ->
+      match convert_bam_sam fmt32 fmtd32 refs block with
+      | CvOk t => parse_line parse32 parse32p refs t = POk (norm_i (norm_s r))
+      | CvWriteErr => write_record fmt32 fmtd32 refs (norm_s r) = None
+      | _ => False
+      end.
+Proof. exact convert_bam_sam_preserves. Qed.
+Print Assumptions c20_convert_bam_to_sam.
+
+(* SAM -> BAM -> SAM: what comes back is r up to the same three normalisations *)
+Theorem c20_convert_sam_bam_sam :
+  forall (fmt32 fmtd32 : N -> bytes) (parse32 : bytes -> option N) (parse32p : bytes -> option (N * bytes)),
+    (forall b, finite32 b = true -> parse32 (fmt32 b) = Some b) ->
+    (forall b, PR (fmt32 b)) ->
+    (forall b rest, finite32 b = true -> (rest = [] \/ exists r, rest = 44 :: r) ->
+                    parse32p (fmtd32 b ++ rest) = Some (b, rest)) ->
+    (forall b, PR (fmtd32 b)) ->
+    forall refs r t out,
+      wf_refs refs -> wf_rec r -> wf_bits r -> r_qual r <> [9] ->
+      write_record fmt32 fmtd32 refs r = Some t ->
+      convert_sam_bam parse32 parse32p refs t = CvOk out ->
+      match convert_bam_sam fmt32 fmtd32 refs out with
+      | CvOk t' => parse_line parse32 parse32p refs t' = POk (norm_i (norm_s r))
+      | CvWriteErr => write_record fmt32 fmtd32 refs (norm_s (lazy_i (norm_i r))) = None
+      | _ => False
+      end.
+Proof. exact convert_sam_bam_sam. Qed.
+Print Assumptions c20_convert_sam_bam_sam.
+
+(* what stays open (kept visible): the same for VCF <-> BCF (C09's VCF text model and C10's BCF
+   record model are not bridged by a to_bcf map yet) and for CRAM (C07's container model), and
+   the file level (header + every record in a loop through the Inner readers/writers). *)
+Definition c20_conversions_full_statement
+    (A B : Type) (read_a : list N -> option (list A)) (write_b : list A -> option (list N))
+    (read_b : list N -> option (list B)) (same : A -> B -> Prop) : Prop :=
+  forall file recs out, read_a file = Some recs -> write_b recs = Some out ->
+    exists recs', read_b out = Some recs' /\ Forall2 same recs recs'.
+
+(* non-vacuity: a record with an integer tag, a CG user field and lower-case bases, no floats *)
+Example c20_example_convert :
+  let refs := [[115; 113; 48]] in
+  let line := [114; 9; 48; 9; 115; 113; 48; 9; 51; 9; 51; 48; 9; 50; 77; 9; 42; 9; 48; 9; 48; 9;
+               97; 78; 9; 73; 73; 9; 78; 72; 58; 105; 58; 55; 10] in   (* r 0 sq0 3 30 2M * 0 0 aN II NH:i:7 *)
+  exists out t',
+    convert_sam_bam (fun _ => None) (fun _ => None) refs line = CvOk out /\
+    convert_bam_sam (fun _ => []) (fun _ => []) refs out = CvOk t' /\
+    t' = [114; 9; 48; 9; 115; 113; 48; 9; 51; 9; 51; 48; 9; 50; 77; 9; 42; 9; 48; 9; 48; 9;
+          65; 78; 9; 73; 73; 9; 78; 72; 58; 105; 58; 55; 10].            (* ... AN II NH:i:7 *)
+Proof. eexists. eexists. split; [vm_compute; reflexivity|]. split; vm_compute; reflexivity. Qed.
